@@ -336,7 +336,7 @@ def run(ctx):
     # ---- correspondence: regenerated model vs implementation
     if ctx.build(['Gen/leb128.vo', 'Lib/Val.vo'])[0]:
         rng = ctx.rng
-        values = sorted(boundary_values(19, wide=not ctx.quick()), key=abs) + random_values(rng, 100 if ctx.quick() else 600)
+        values = sorted(boundary_values(19, wide=not ctx.quick()), key=abs) + random_values(rng, 60 if ctx.quick() else 300)
         cases, recs, seen = [], [], set()
         dist = {}
 
@@ -355,7 +355,7 @@ def run(ctx):
                 out = timed(ctx, name, v, lambda: call_impl(getattr(lb, name), [v], diag=diag))
                 if out is not None:
                     add(name, v, out, 'value' if v >= 0 or name.startswith('signed') else 'negative')
-        dvals = values[::(4 if ctx.quick() else 2)] + [0, 1, -1, 63, 64, -64, -65]
+        dvals = values[::(5 if ctx.quick() else 3)] + [0, 1, -1, 63, 64, -64, -65]
         for label, data in decoder_inputs(rng, dvals):
             for name in DEC:
                 out = timed(ctx, name, list(data), lambda: impl_decode(getattr(lb, name), data))
@@ -374,7 +374,7 @@ def run(ctx):
             ctx.note_sample({'fn': r[0], 'arg': repr(r[1])[:120],
                              'impl': (repr(list(r[2].v) if r[0] in ENC else r[2].v)[:120] if isinstance(r[2], OkV)
                                       else r[2].__name__)})
-        bad = ctx.run_cases('leb128', ['Gen.leb128'], cases)
+        bad = ctx.run_cases("leb128", ["Gen.leb128"], cases, shard=200)
         if bad:
             for i in bad[:5]:
                 name, arg, out = recs[i]
